@@ -1,6 +1,8 @@
 package main
 
 import (
+	"runtime/debug"
+	"runtime/pprof"
 	"flag"
 	"fmt"
 	"os"
@@ -25,6 +27,7 @@ func loadOverlay(repo, hdir string) map[string][]byte {
 }
 
 func main() {
+	debug.SetGCPercent(400)
 	if len(os.Args) < 2 {
 		fmt.Println("usage: gosym run|check ...")
 		os.Exit(2)
@@ -88,6 +91,11 @@ func cmdRun(args []string) {
 			}
 		}()
 	}
+	if pf := os.Getenv("GOSYM_PROF"); pf != "" {
+		f, _ := os.Create(pf)
+		pprof.StartCPUProfile(f)
+		defer pprof.StopCPUProfile()
+	}
 	for _, h := range fs.Args() {
 		st, err := engine.Explore(p, h, engine.Opts{MaxSteps: *steps, MaxDepth: 400, MaxLoop: 100000, MapOrderSymbolic: *mapsym, WantReach: true, Params: pm}, *workers, *solver, 10000, *maxPaths)
 		if err != nil {
@@ -108,7 +116,7 @@ func cmdRun(args []string) {
 			fmt.Printf("  bound x%d: %s\n", n, k)
 		}
 		for i, v := range st.Violations {
-			if i >= 5 {
+			if i >= 5 && os.Getenv("GOSYM_ALLVIOL") == "" {
 				break
 			}
 			fmt.Printf("  VIOL: %s notes=%v inputs=%v\n", v.Msg, v.Notes, v.Inputs)
